@@ -29,8 +29,8 @@ def oracle_serial(r: dict) -> list[str]:
             msgs.append(f'{ncmd} command(s) reached the child of a run started with plain run() ({op!r}): it was auto-answered')
         if w == 'prompt' and cont_run and 'lc=1' in rep and ncmd == 0:
             msgs.append('a prompt of a non-interactive run was not answered')
-        if 'ps:finished' in toks:
-            cont_run = False
+        if 'ps:finished' in toks or g['st'][0] != 'running':
+            cont_run = False          # a non-interactive run is in flight only while the state is 'running'
         ce = g['ce'][0]
         if started and ce != 'E':
             if (ce == '1') != cont_run:
